@@ -54,6 +54,7 @@ class Scenario:
         self.corrupt_armed: dict | None = None
         self.corrupted: list[dict] = []
         self.burst = None
+        self.ev_after_resp: list[dict] = []  # event ops waiting to go out right behind the next secure response
         self.event_token = 0
         self.fatal: str | None = None
         self.resp_range: dict[int, tuple] = {}
@@ -273,6 +274,16 @@ class Scenario:
         if serial is not None:
             self.resp_range[serial] = (conn.no, conn.queued_a2c, conn.queued_a2c + len(data))
         self.w._orig_out(session, data, kind, serial)
+        if kind == "response" and session.secure and self.ev_after_resp and session is self._current_session() and not session.closed:
+            # an armed event goes out right behind this response (a write that changes another characteristic, a subscription
+            # acknowledged while the value is changing): both reach the controller in the same read
+            op = self.ev_after_resp.pop(0)
+            self.ctx.probe("event_sent_right_behind_a_response")
+            conn.force_coalesce = True
+            try:
+                self._send_events(op)
+            finally:
+                conn.force_coalesce = False
 
     def _corrupt(self, conn, data: bytes, spec: dict) -> bytes:
         # walk frames
@@ -305,6 +316,12 @@ class Scenario:
         sess = self._current_session()
         if sess is None or not sess.secure or sess.closed:
             self.ctx.probe("event_skipped_no_session")
+            return
+        if not sess.c2a_frames:
+            # an accessory only notifies on a connection that registered for events, i.e. one that has already carried an
+            # encrypted request; encrypted bytes right behind the final pair-verify reply could share a read with it and be
+            # parsed by the still-plaintext protocol - a peer fault outside every property here
+            self.ctx.probe("event_skipped_session_not_yet_used")
             return
         conn = sess.conn
         n = op.get("n", 1)
@@ -450,7 +467,10 @@ class Scenario:
                 c.server_close(op.get("how", "fin"))
                 ctx.probe("peer_closed_old_connection")
         elif kind == "event":
-            self._send_events(op)
+            if op.get("after_response"):
+                self.ev_after_resp.append(op)
+            else:
+                self._send_events(op)
         elif kind == "unsolicited":
             sess = self._current_session()
             busy = any(c["t1"] is None for c in self.calls) or self.in_attempt > 0
